@@ -13,10 +13,12 @@ import (
 // accessors whose value is decided completely by a decision-table rule: reads beyond their declared
 // inputs are shown there not to matter (the table varies those inputs too)
 var decidedByTable = map[string]string{
-	"calendar.(*Foto).IsMonthZhai":       "R17.7",
-	"calendar.(*Foto).IsDayZhaiShuoWang": "R17.7",
-	"calendar.(*Foto).IsDayZhaiSix":      "R17.7",
-	"calendar.(*Foto).IsDayZhaiTen":      "R17.7",
+	"calendar.(*Foto).IsMonthZhai":        "R17.7",
+	"calendar.(*Foto).IsDayZhaiShuoWang":  "R17.7",
+	"calendar.(*Foto).IsDayZhaiSix":       "R17.7",
+	"calendar.(*Foto).IsDayZhaiTen":       "R17.7",
+	"calendar.(*Lunar).GetOtherFestivals": "R13.5",
+	"calendar.(*Lunar).GetFestivals":      "R13.4",
 }
 
 func r17_7(c *Ctx, r *Report) {
